@@ -20,6 +20,7 @@ structure NodeS where
   id : String := ""
   peers : List PeerS := []
   pending : List String := []
+  pendingStage : List (String × Nat) := []     -- handshake stage of each pending attempt (2 = awaiting pong, 3 = awaiting peng)
   own : List String := []
   next : Int := 0
   rc : List (String × Nat × Nat × Int) := []
@@ -56,6 +57,7 @@ def parseNodeS (s : String) : NodeS :=
   let cacheSec := ((s.splitOn " cache=").getD 1 "-")
   let peers := if peersSec = "" then [] else (peersSec.splitOn "};").filterMap parsePeerS
   let pending := if pendSec = "" then [] else (pendSec.splitOn "};").map (fun e => (e.splitOn "{").headD "")
+  let pendingStage := if pendSec = "" then [] else (pendSec.splitOn "};").map (fun e => ((e.splitOn "{").headD "", (between e "init=" "/").toNat?.getD 0))
   let rc := if rcSec = "" then [] else (rcSec.splitOn ";").filterMap (fun e =>
     match e.splitOn "/" with
     | [a, tr, to, nx] => some (a, tr.toNat?.getD 0, to.toNat?.getD 0, nx.toInt?.getD 0)
@@ -77,7 +79,7 @@ def parseNodeS (s : String) : NodeS :=
       | [ad, p] => (Bytes.ofHex ad).map (fun ad => (ad, p, t.toInt?.getD 0))
       | _ => none
     | _ => none)
-  { id := between s "id=" " peers=[", peers, pending, own := if ownSec = "" then [] else ownSec.splitOn ",", next, rc,
+  { id := between s "id=" " peers=[", peers, pending, pendingStage, own := if ownSec = "" then [] else ownSec.splitOn ",", next, rc,
     dropIn := di, dropOut := dout, claims, cache, raw := s }
 
 /-- state string without the drop counters (for "left no state behind") -/
@@ -102,6 +104,17 @@ structure NRef where
   tracked : List Tracked := []
   now : Int := 0
   ticks : List (Nat × Nat) := []
+  /-- handshake completions in order: (node, peer, completed as initiator) -/
+  done : List (String × String × Bool) := []
+
+/-- the sessions `a` and `b` hold for each other stem from the same handshake attempt: the last two completions between
+    them are the initiator's (at the pong) followed by the responder's (at the peng).  While only one end has completed a
+    newer attempt the other end legitimately still holds the older session. -/
+def NRef.paired (r : NRef) (a b : String) : Bool :=
+  let ev := r.done.filter (fun (x, y, _) => (x = a && y = b) || (x = b && y = a))
+  match ev.reverse with
+  | (x2, _, i2) :: (x1, _, i1) :: _ => i1 && !i2 && x1 ≠ x2
+  | _ => false
 
 def NRef.node (r : NRef) (p : Nat) : Option NodeS := (r.nodes.find? (·.1 = p)).map (·.2)
 def NRef.setNode (r : NRef) (p : Nat) (n : NodeS) : NRef :=
@@ -206,13 +219,22 @@ def receiveChecks (r : NRef) (port : Nat) (src : String) (d : Bytes) (attack : B
         match tr with
         | some t =>
           let fresh := !t.delivered && t.dst = me && src = t.src
-          -- the receiver holds a ready session for the sender and is not in the middle of a handshake with it
-          -- (while its own end of a new handshake is still pending the old session is legitimately still in place)
-          let inSync := before.peers.any (fun p => p.addr = src && p.ready) && !before.pending.contains src
+          -- the receiver holds a ready session for the sender and both ends completed the same handshake attempt
+          let inSync := before.peers.any (fun p => p.addr = src && p.ready) && r.paired src me
           if fresh && inSync && devs.isEmpty && r.now ≤ t.born + 1 then some "C02/C05 payload from an established peer (both ends completed their handshake) was not delivered"
           else none
         | none => none
-    let r2 := { r1 with tracked := r1.tracked.map (fun t => if t.bytes = d && !devs.isEmpty then { t with delivered := true } else t) }
+    -- a handshake attempt with `src` completed at this node: its pending entry is gone and `src` is a peer.  Only a regular
+    -- delivery can complete an attempt (a replayed or edited datagram cannot: the attempt's ephemeral keys are fresh); pending
+    -- attempts that replays create and that are removed again on an error are no completions.
+    let completed : List (String × String × Bool) :=
+      if attack then [] else
+      match before.pendingStage.find? (·.1 = src) with
+      | some (_, stage) =>
+        if !after.pending.contains src && after.peers.any (fun p => p.addr = src) && (stage = 2 || stage = 3) then [(me, src, stage = 2)] else []
+      | none => []
+    let r2 := { r1 with done := r1.done ++ completed,
+                        tracked := r1.tracked.map (fun t => if t.bytes = d && !devs.isEmpty then { t with delivered := true } else t) }
     (r2, match verdict with | some e => "FAIL " ++ e | none => "ok")
 
 def nodeRefStep (r : NRef) (t : List String) (obs : String) : NRef × String :=
